@@ -23,9 +23,9 @@ import (
 	"go/types"
 	"os"
 	"runtime"
+	"slices"
 	"strconv"
 	"unsafe"
-	"slices"
 
 	"golang.org/x/tools/go/ssa"
 )
